@@ -190,22 +190,31 @@ Fixpoint sub_ph_pair (fuel : nat) (ph repl : str) (s : str) : str * bool :=
    doubled by the caller; line comments are passed as they are (repaired code: passed through a function,
    i.e. literally). *)
 
-(* insert_block_comments *)
-Fixpoint insert_blocks (mk_default : str -> str) (bcs : list (N * str)) (first : bool) (inserted : str) (s : str)
-  : str * str :=
+(* insert_block_comments (repaired): the header is the block comment the text begins with *)
+Definition header_key (bcs : list (N * str)) (s : str) : option N :=
+  if starts_with w_BLOCKCOMMENT s && all_digits_n 6 (drop_n (length w_BLOCKCOMMENT) s) then
+    let i := dec_to_N (take_n 6 (drop_n (length w_BLOCKCOMMENT) s)) in
+    match match_ph_pair (placeholder w_BLOCKCOMMENT i) s with
+    | Some _ => match tlookup i bcs with Some _ => Some i | None => None end
+    | None => None
+    end
+  else None.
+Fixpoint insert_blocks (mk_default : str -> str) (hk : option N) (bcs : list (N * str)) (inserted : str) (s : str)
+  : str :=
   match bcs with
-  | [] => (s, inserted)
+  | [] => s
   | (i, bc) :: bcs' =>
-      let bc1 := if first then mk_default bc else bc in
+      let bc1 := match hk with Some h => if N.eqb h i then mk_default bc else bc | None => bc end in
       let bc2 := if contains bc1 inserted then [] else bc1 in
       let ph := placeholder w_BLOCKCOMMENT i in
       let (s', found) := sub_ph_pair (S (length s)) ph bc2 s in
-      if found then insert_blocks mk_default bcs' false (inserted ++ bc2) s'
-      else insert_blocks mk_default bcs' false inserted s
+      if found then insert_blocks mk_default hk bcs' (inserted ++ bc2) s'
+      else insert_blocks mk_default hk bcs' inserted s
   end.
 Definition insert_block_comments (mk_default : str -> str) (bcs : list (N * str)) (s : str) : str :=
-  let (s', inserted) := insert_blocks mk_default bcs true [] s in
-  match inserted with [] => mk_default [] ++ s' | _ => s' end.
+  let hk := header_key bcs s in
+  let s' := insert_blocks mk_default hk bcs [] s in
+  match hk with None => mk_default [] ++ s' | Some _ => s' end.
 
 Definition insert_includes (fmt_name : str -> str) (incs : list (N * include_entry)) (s : str) : str :=
   fold_left (fun acc (e : N * include_entry) =>
